@@ -83,4 +83,4 @@ func init() {
 	}
 }
 
-func TestVerifC29Adapter(t *testing.T) { c29Main(t, "adapter", 40, 300) }
+func TestVerifC29Adapter(t *testing.T) { c29Main(t, "adapter", 40, 400) }
